@@ -4,6 +4,7 @@ import time
 import os
 import random
 
+from .. import adjust
 from .. import config_common as cc
 from .. import coqterm as ct
 from .. import gen_tree as gt
@@ -87,9 +88,10 @@ def session_calls(case, req_tids, dflt_tid):
     return out
 
 
-class C19(Prop):
+class C19(adjust.Remember, Prop):
     id = "C19"
     corr_module = "Corr.C19Corr"
+    preds = ("corr", "spec", "adj_fc19", "adj_fc06a", "adj_both")
     quick_n = 700
     thorough_n = 12000
     shard_size = 60
@@ -436,8 +438,8 @@ class C19(Prop):
         st = ct.result(obs["state"], ns.state)
         if obs.get("req_tids") is None:
             # build error or unusable request: compare the build only
-            return "(mk %s %s %s [] None %s %s %s (Ok ([], None)))" % (
-                ns.sub(case["script"]), init, bodies, ct.b(case["dedupe"]), envs, st)
+            return self.remember(case, "(mk %s %s %s [] None %s %s %s (Ok ([], None)))" % (
+                ns.sub(case["script"]), init, bodies, ct.b(case["dedupe"]), envs, st))
         reqs = ct.lst([ct.pair(ct.s(nm), self._scall(case, tid))
                        for nm, tid in zip(obs.get("req_names") or case["requests"], obs["req_tids"])])
         dflt = ct.opt(self._scall(case, obs["dflt_tid"]) if obs["dflt_tid"] is not None else None)
@@ -449,8 +451,8 @@ class C19(Prop):
             o = "(Ok (%s, %s))" % (recs, ct.opt(ct.err(esc) if esc is not None else None))
         else:
             o = "(Err %s)" % ct.err(obs.get("err", "Exception"))
-        return "(mk %s %s %s %s %s %s %s %s %s)" % (ns.sub(case["script"]), init, bodies, reqs, dflt,
-                                                      ct.b(case["dedupe"]), envs, st, o)
+        return self.remember(case, "(mk %s %s %s %s %s %s %s %s %s)" % (
+            ns.sub(case["script"]), init, bodies, reqs, dflt, ct.b(case["dedupe"]), envs, st, o))
 
     # ---- classification ----------------------------------------------------------
     def _calls(self, case, obs):
@@ -484,12 +486,15 @@ class C19(Prop):
         return ":".join(kinds)
 
     def finding_of(self, case, obs):
-        """F-C19: an executed pre/post task or implicitly chosen default task lives below the root, in a
-        place whose path carries collection-level settings"""
+        """Signatures (which mechanism is present) are read off the case; the judgement is made in Coq:
+        the finding is named only if the specification with that finding's expectation substituted
+        accepts the observation.
+        F-C19: an executed pre/post task or implicitly chosen default task lives below the root, in a place
+        whose path carries collection-level settings -> judged against the root configuration.
+        F-C06a (C06's finding): a successful dict-valued write -> judged as a merge."""
         if "ok" not in obs or "ok" not in obs["state"]:
             return None
-        # F-C06a (C06's finding, also visible here): a dict-valued write is merged into what the other
-        # levels (and earlier deletions) hold at that path instead of replacing it
+        dictwrite = False
         for r in obs["ok"]["records"]:
             for op, o in zip(case["bodies"].get(str(r[0]), []), r[2]):
                 if "err" in o:
@@ -497,14 +502,22 @@ class C19(Prop):
                 if (op[0] == "set" and isinstance(op[4], dict)) or \
                    (op[0] == "update" and any(isinstance(v, dict) for _, v in op[3])) or \
                    (op[0] == "setdefault" and op[4] is not None and isinstance(op[4]["d"], dict)):
-                    return "F-C06a"
+                    dictwrite = True
+        unnamed = False
         hm = homes(obs["state"]["ok"])
         ran = set(r[0] for r in obs["ok"]["records"])
         for tid, called_as in self._calls(case, obs):
             if called_as is None and tid in ran:
                 path = hm.get(tid, ())
                 if len(path) > 1 and any(cfg for cfg in path[1:]):
-                    return "F-C19"
+                    unnamed = True
+        v = self.verdicts(case)
+        if unnamed and v.get("adj_fc19"):
+            return "F-C19"
+        if dictwrite and v.get("adj_fc06a"):
+            return "F-C06a"
+        if unnamed and dictwrite and v.get("adj_both"):
+            return "F-C19"
         return None
 
     _shrink_t0 = None
